@@ -262,6 +262,9 @@ func (s *Sorts) prelude() string {
 	b.WriteString("(declare-sort Ref 0)\n(declare-const nil Ref)\n(declare-sort Opq 0)\n(declare-const opqzero Opq)\n")
 	b.WriteString("(declare-datatypes ((Slice 0)) (((mk_slice (sbase Ref) (soff Int) (slen Int) (scap Int)))))\n")
 	b.WriteString("(define-fun nilslice () Slice (mk_slice nil 0 0 0))\n")
+	// element index of a slice: an uninterpreted wrapper so that quantified contracts have a clean trigger
+	b.WriteString("(declare-fun sidx (Slice Int) Int)\n")
+	b.WriteString("(assert (forall ((s Slice) (i Int)) (! (= (sidx s i) (+ (soff s) i)) :pattern ((sidx s i)))))\n")
 	b.WriteString("(declare-datatypes ((Iface 0)) (((mk_iface (itag Int) (iref Ref) (iint Int) (istr String) (ibool Bool) (isl Slice)))))\n")
 	b.WriteString("(define-fun niliface () Iface (mk_iface 0 nil 0 \"\" false nilslice))\n")
 	// struct datatypes in dependency order: a struct registered later may be needed by an earlier one
